@@ -170,6 +170,90 @@ where
     true
 }
 
+/// Like `drive`, but the items of every pass are consumed through the skipping
+/// methods of `Lender` (`nth`, `advance_by`) with steps drawn from `steps`: a pass
+/// after a rewind must lend, at every position reached this way, the item the
+/// first pass has there.
+fn drive_skipping<T, L>(c: &mut Case, mk: &dyn Fn() -> Result<L, String>, expected: &[T::Owned], hist: &[usize], steps: &[usize], what: &dyn Fn() -> String) -> bool
+where
+    T: ?Sized + ToOwned,
+    T::Owned: PartialEq + Debug,
+    L: RewindableIoLender<T>,
+{
+    let n = expected.len();
+    let Ok(Ok(mut l)) = catch(mk) else { return false }; // `drive` reports construction failures
+    let mut si = 0usize;
+    for p in 0..=hist.len() {
+        let polls = if p < hist.len() { hist[p] } else { usize::MAX };
+        let mut i = 0usize; // items of this pass consumed so far
+        let r = catch(|| -> Result<(), (String, String)> {
+            while i < polls {
+                let k = steps[si % steps.len()].min(polls - i - 1).min(n + 2);
+                si += 1;
+                let use_advance = si % 3 == 0;
+                let item: Option<Result<&T, L::Error>> = if use_advance {
+                    match l.advance_by(k) {
+                        Ok(()) => l.next(),
+                        Err(rem) => {
+                            // fewer than k items were left: exactly k - rem were skipped
+                            let skipped = k - rem.get();
+                            if i + skipped != n {
+                                return Err(("mismatch".into(), format!("advance_by({}) after {} items of a pass of {} reports {} items skipped", k, i, n, skipped)));
+                            }
+                            return Ok(());
+                        }
+                    }
+                } else {
+                    l.nth(k)
+                };
+                match item {
+                    None => {
+                        if i + k < n {
+                            return Err(("mismatch".into(), format!("{}({}) after {} items lends nothing although the pass has {} items", if use_advance { "advance_by+next" } else { "nth" }, k, i, n)));
+                        }
+                        return Ok(());
+                    }
+                    Some(Err(e)) => return Err(("error".into(), format!("the lender returned an error: {}", e))),
+                    Some(Ok(x)) => {
+                        let x: T::Owned = x.to_owned();
+                        if i + k >= n {
+                            return Err(("mismatch".into(), format!("{}({}) after {} items lends {} although the pass has only {} items", if use_advance { "advance_by+next" } else { "nth" }, k, i, trunc(&format!("{:?}", x), 200), n)));
+                        }
+                        if x != expected[i + k] {
+                            return Err((
+                                "mismatch".into(),
+                                format!("{}({}) after {} items lends {} where the first pass has item #{} = {}", if use_advance { "advance_by+next" } else { "nth" }, k, i, trunc(&format!("{:?}", x), 200), i + k, trunc(&format!("{:?}", expected[i + k]), 200)),
+                            ));
+                        }
+                        i += k + 1;
+                    }
+                }
+            }
+            Ok(())
+        });
+        c.tick(i as u64 + 1);
+        let here = || format!("pass {} (history: consume {:?} items with nth/advance_by then rewind each time, then to the end); {}", p + 1, hist, what());
+        match r {
+            Err(m) => {
+                c.fail("pass_with_skips", "panic", &m, &format!("panicked in {}", here()));
+                return false;
+            }
+            Ok(Err((kind, d))) => {
+                c.fail("pass_with_skips", &kind, if kind == "mismatch" { "a pass consumed with nth/advance_by differs from the first pass" } else { "error" }, &format!("{} in {}", d, here()));
+                return false;
+            }
+            Ok(Ok(())) => {}
+        }
+        if p < hist.len() {
+            l = match catch(|| l.rewind()) {
+                Ok(Ok(l)) => l,
+                _ => return false, // `drive` reports rewind failures
+            };
+        }
+    }
+    true
+}
+
 fn run_hists<T, L>(c: &mut Case, mk: &dyn Fn() -> Result<L, String>, expected: &[T::Owned], hists: &[Vec<usize>], what: &dyn Fn() -> String)
 where
     T: ?Sized + ToOwned,
@@ -234,6 +318,16 @@ where
     c.tick(exp.len() as u64 + 1);
     for h in hists {
         drive::<T, L>(c, mk, exp, h, what);
+    }
+    // the same histories consumed with nth / advance_by (not over Take: K02 changes what is left)
+    if TAKE_M.load(std::sync::atomic::Ordering::Relaxed) == usize::MAX {
+        let n = exp.len();
+        let step_sets: [&[usize]; 3] = [&[0, 1, 2, 0, 7], &[3, 0, 64, 1], &[n / 3 + 1, 0, 1000, 2]];
+        for (j, h) in hists.iter().enumerate() {
+            if j % 2 == 0 || hists.len() <= 3 {
+                drive_skipping::<T, L>(c, mk, exp, h, step_sets[j % 3], what);
+            }
+        }
     }
 }
 
